@@ -218,7 +218,7 @@ def struct_text(s):
 
 
 @st.composite
-def class_decl(draw, lang, names):
+def class_decl(draw, lang, names, enum_types=(), force_member=None):
     name = names.fresh(draw(st.sampled_from(_WORDS)))
     cnames = Names()
     ctors = []
@@ -233,7 +233,14 @@ def class_decl(draw, lang, names):
     for i in range(draw(st.integers(0, 3))):
         methods.append(draw(function(lang, cnames, prefix=draw(st.sampled_from(["method", "getVal", "do_it"])),
                                      cls=name, max_params=2)))
-    return dict(kind="class", name=name, ctors=ctors, dtor=dtor, methods=methods,
+    # classes.rst "Member Variables": public data members get getter / setter functions (only a getter with +readonly)
+    members = []
+    if force_member:
+        members.append(dict(name="m_%s" % cnames.fresh("kind"), T=force_member, readonly=False))
+    for i in range(draw(st.sampled_from([0, 0, 1, 2]))):
+        T = draw(st.sampled_from(["int", "double", "long"] + list(enum_types)))
+        members.append(dict(name="m_%s%d" % (cnames.fresh("v"), i), T=T, readonly=draw(st.integers(0, 3)) == 0))
+    return dict(kind="class", name=name, ctors=ctors, dtor=dtor, methods=methods, members=members,
                 options={}, format={})
 
 
@@ -271,6 +278,12 @@ def library(draw, lang=None, max_decls=8, with_python=None, with_lua=None, featu
         if "class" in feats and "template" in feats:
             kinds.append("ctemplate")
         k = draw(st.sampled_from(kinds))
+        if i == must_pos and must == "enummember" and "class" in kinds and "enum" in kinds:
+            # a class with a writable data member of an enumeration type declared before it
+            e = draw(enum_decl(names, scoped_ok=False))
+            lib["decls"].append(e)
+            lib["decls"].append(draw(class_decl(lang, names, [e["name"]], force_member=e["name"])))
+            continue
         if i == must_pos and (must in kinds or (must == "deepns" and "namespace" in kinds)):
             k = must            # stratified sampling: this library carries the required kind of declaration
         force_deep = k == "deepns"
@@ -279,7 +292,8 @@ def library(draw, lang=None, max_decls=8, with_python=None, with_lua=None, featu
         if k == "func":
             lib["decls"].append(draw(function(lang, names, prefix=None)))
         elif k == "class":
-            lib["decls"].append(draw(class_decl(lang, names)))
+            enums_so_far = [d["name"] for d in lib["decls"] if d["kind"] == "enum" and not d.get("scoped")]
+            lib["decls"].append(draw(class_decl(lang, names, enums_so_far, force_member=("int" if i == must_pos else None))))
         elif k == "ctemplate":
             # templates.rst / templates.yaml: a class template with its instantiations
             insts = draw(st.lists(st.sampled_from(["int", "double", "long"]), min_size=1, max_size=2, unique=True))
@@ -418,6 +432,8 @@ def _decl_yaml(node, lib):
         if node["dtor"]:
             inner.append({"decl": "~%s()" % node["name"], "format": {"function_suffix": "_dtor"}}
                          if False else {"decl": "~%s() +name(delete)" % node["name"]})
+        for v in node.get("members", []):
+            inner.append({"decl": "%s %s%s" % (v["T"], v["name"], " +readonly" if v["readonly"] else "")})
         for m in node["methods"]:
             inner.append(_func_yaml(m, lib))
         for e in node.get("inner", []):
@@ -530,7 +546,7 @@ def sample(strategy, seed_value, n):
 
 
 STRATA = [None, "class", "namespace", "deepns", "overload", "default", "template", "generic", "enum", "struct", "classpair",
-          "ctemplate"]
+          "ctemplate", "enummember"]
 
 
 def sample_models(seed_value, n, **kw):
@@ -581,6 +597,8 @@ def header(lib):
                         p["ctype"] + ((" = " + p["default"]) if p.get("default") is not None else "") for p in c["params"])))
                 if n["dtor"]:
                     out.append(indent + "    ~%s();" % n["name"])
+                for v in n.get("members", []):
+                    out.append(indent + "    %s %s;" % (v["T"], v["name"]))
                 for m in n["methods"]:
                     out.append(indent + "    " + func_proto(m))
                 out.append(indent + "};")
